@@ -2,22 +2,31 @@ from checks import rapid, plain, fuzz, REPLAY
 
 CHECK = dict(
     pkg="c12", level="fault_enumeration",
-    rule="L1: internal/reghttp driven directly (1-4 logical requests GET/HEAD/DELETE/PUT on one fresh client) and L2: every RegClient registry operation "
-         "(blob get/head/put mono+chunked/delete/mount/copy, manifest get/head/put/delete, tag list with pagination, tag delete, referrer list, catalog, ping, image copy) "
-         "against regmodel, x retry limit 1-5 x delayInit 2-20 ms x delayMax x topology (upstream + 0-3 mirrors with priorities incl. ties, each has/lacks the content) "
-         "x per-host fault word over {ok, 500, 502, 504, 408, 429, 429+Retry-After, 503, reset, reset-after, body cut at offset, 404, 416, 401 challenge, 403, 400} of length 0..limit+3 plus a 'forever' tail "
-         "x class-targeted faults x upload server behaviours (Location styles, min chunk, partial acceptance with 202/416, no-progress servers, refused monolithic PUT, early 201). "
-         "Non-trivial = at least one injected fault was delivered, or >= 2 hosts configured; distinct by (operation/request list, parameters, per-host words, limit).",
+    rule="L1: internal/reghttp driven directly (1-4 logical requests GET/HEAD/DELETE/PUT on one fresh client; one Client.Do + reading the body = one logical request) and "
+         "L2: every RegClient registry operation (blob get/head/put monolithic+chunked/delete/mount/copy, manifest get/head/put/delete incl. referrers fall-back, tag list with pagination, "
+         "tag delete by API and by placeholder image, referrer list by API with paging and by tag, catalog, ping, image copy same/cross registry) against regmodel, "
+         "x retry limit 1-5 x delayInit 2-20 ms x delayMax x topology (upstream + 0-3 mirrors with priorities incl. ties, each has/lacks the content) "
+         "x per-host fault word over {ok, 500, 502, 504, 408, 429, 429+Retry-After, 503, reset, reset-after, body cut at offset, 404, 416, 401 challenge with changing realm, 403, 400} "
+         "of length 0..limit+3 plus a 'for ever' tail x class-targeted faults x upload server behaviours (Location styles 0-4, min chunk, partial acceptance answered 202 or 416+Location+Range, "
+         "servers that never accept more, refused monolithic PUT, early 201, 5xx for ever on PATCH/PUT/status). "
+         "Non-trivial = at least one injected fault was delivered, or >= 2 hosts configured; distinct by (request list / operation + parameters, per-host words, class faults, limit).",
     jobs=[REPLAY,
           rapid("prop", "TestVerifProp", 8000, 320000, sq=16, st=16),
           plain("exhaustive", "TestVerifExhaustive", sq=8, st=16)],
-    technique="property-based testing (rapid) with an in-process model registry that owns the transport and executes generated fault plans; exhaustive enumeration of short fault words; log-based oracles (attempt counts, monotonic timestamps, request targets) plus a fault-free twin run",
-    level_text="Fault sequences are generated (and, for one GET and one upload at limit 1-3, enumerated completely up to length limit+1) and executed by a model registry; attempts per logical request, "
-               "request-count termination, absorption of fewer-than-limit transient faults (comparison with a fault-free twin), one-sided back-off bounds from the model's monotonic timestamps, "
-               "mirror order and the target host of every state-changing request are checked on every case. Exploration, not proof.",
-    level_note="Trusted: regmodel, rapid. Back-off and 'currently backing off' ordering are asserted only through one-sided bounds on the model's own timestamps; goroutine interleavings of ImageCopy are not owned "
-               "(clauses 4/5 are skipped there). Liveness is decided by request-count caps (300-1500 per case); a wall-clock watchdog is inconclusive.",
-    assumptions=["'transient' = the classes the client documents as retryable (429, 408, 500, 502, 504, transport error, body cut short where the endpoint supports Range or nothing was read yet)",
-                 "absorption is stated for a fresh client, fewer delivered transient faults than the limit, and an attempt budget (limit+1 per logical request) that lacking mirrors do not exhaust",
-                 "mirrors hold byte-identical copies of the upstream's read repository or nothing"],
+    technique="property-based testing (rapid) with an in-process model registry that owns the transport and executes generated fault plans; exhaustive enumeration of short fault words; "
+              "log-based oracles (attempt counts per logical request, request-count caps, monotonic model timestamps, first-contact order, target host of every request, concurrency-slot probe) plus a fault-free twin run",
+    level_text="Fault sequences are generated and, for one GET (L1) and one upload (L2 BlobPut) at limit 1-2 (quick) / 1-3 (thorough), enumerated completely up to length limit+1 over a 14 letter alphabet "
+               "(evidence key exhaustive_words) and executed by a model registry. Checked on every case: (1) attempts per logical request <= limit+1; (2) termination by count (request cap, same chunk never PATCHed "
+               "more than 12 x (limit+1) times, all concurrency slots free after Close); (3) fewer delivered transient faults than the limit => same return values and registry state as the fault-free twin; "
+               "(4) one-sided back-off bounds from the model's monotonic timestamps (k-th request after the first failure of a host not before failure + k x delayInit; next request after Retry-After not before it); "
+               "(5) first-contact order of reads: descending priority, upstream last among equals, hosts certainly inside a back-off window after hosts that never failed; (6) every non-GET/HEAD and every upload-session "
+               "request reaches the named registry only. Exploration, not proof.",
+    level_note="Trusted: regmodel, rapid. Clauses 4/5 are evaluated on sequential operations only (ImageCopy's goroutines are not owned). All timing verdicts are one-sided bounds on the model's own timestamps, except "
+               "'Retry-After host contacted first', which assumes the client orders its hosts within 750 ms of being called and is reported only when three executions agree. "
+               "Liveness is decided by counts (request cap 300 at L1, 3000 at L2); a wall-clock watchdog (90/120 s per case) is inconclusive.",
+    assumptions=["'transient' = the classes the client documents as retryable: 429, 408, 500, 502, 504, transport error, body cut short where the endpoint supports Range (blobs) or nothing was read yet",
+                 "absorption is stated for a fresh client, fewer delivered back-off events than the limit (natural 4xx/5xx answers count like faults), an attempt budget (limit+1 per logical request) that lacking "
+                 "mirrors cannot exhaust ((f+1) x mirrors + f <= limit), and no fault on a probe the client deliberately does not retry (anonymous mount, tag DELETE)",
+                 "mirrors hold byte-identical copies of the upstream's read repository or nothing, and answer 404 for what they lack",
+                 "a fractional Retry-After (used to keep sleeps short) may be honoured or treated as a plain 429: the bound is min(value, delayInit); integer values are asserted in full"],
 )
